@@ -31,7 +31,7 @@ def Z(profile, flav="asan", w=1, scen="zoo", mode="batch"):
 
 
 PROPS = {
-    "C01": dict(parts=[Z("C01", w=4), Z("C10", scen="sig"), Z("C11", scen="wait")], quick=24000, thorough=1200000, nontrivial=["unreg_in_cb"], level="exploration"),
+    "C01": dict(parts=[Z("C01", w=4), Z("C10", scen="sig"), Z("C11", scen="wait"), Z("C20", scen="inot")], quick=24000, thorough=1200000, nontrivial=["unreg_in_cb"], level="exploration"),
     "C02": dict(parts=[Z("C02")], quick=24000, thorough=1200000, nontrivial=["fd_cb", "block"], level="exploration"),
     "C03": dict(parts=[Z("C03")], quick=24000, thorough=1200000, nontrivial=["fd_cb"], level="exploration"),
     "C04": dict(parts=[Z("C04", w=4), Z("C05", scen="timers")], quick=24000, thorough=1200000, nontrivial=["timer_fired", "block"], level="exploration"),
@@ -51,7 +51,8 @@ PROPS = {
                 nontrivial_any=["post_cross", "sim_libthreads", "sim_sigdel", "sim_reaps"], level="exploration"),
     "C15": dict(parts=[Z("C15", mode="enum")], quick=260, thorough=12000, nontrivial=["block"], level="fault_enumeration"),
     "C17": dict(parts=[Z("C17", scen="pump")], quick=6000, thorough=300000, nontrivial=["pump_bytes"], level="exploration"),
-    "C18": dict(parts=[Z("C18", w=4), Z("C13", scen="pool"), Z("C10", scen="sig"), Z("C11", scen="wait"), Z("C19", scen="popen")], quick=24000, thorough=1200000, nontrivial=["cycles"], level="exploration"),
+    "C18": dict(parts=[Z("C18", w=4), Z("C13", scen="pool"), Z("C10", scen="sig"), Z("C11", scen="wait"), Z("C19", scen="popen"),
+                       Z("C17", scen="pump"), Z("C20", scen="inot"), Z("C05", scen="timers")], quick=24000, thorough=1200000, nontrivial=["cycles"], level="exploration"),
     "C20": dict(parts=[Z("C20", scen="inot")], quick=16000, thorough=800000, nontrivial=["inot_cb"], level="exploration"),
 }
 
